@@ -196,6 +196,57 @@ def run_fixed(hz, job):
     return dict(n=n, named=named, fails=fails[:20])
 
 
+FIRST_OPS = ['read_zinc', 'read_json', 'timezone_call', 'write_one', 'read_scalar_unknown_zone']
+
+
+def run_order(hz, job):
+    """A fresh process whose FIRST zone-related operation is `first` (a read, a name lookup, a write of one zone); afterwards a
+    value of every mapped zone, built directly from the zone database, is written and read back: same instant, offset, zone name.
+    zmap = {haystack name: zone-database name} as a process that never did anything else reports it."""
+    import pytz
+    first, zmap = job['first'], job['zmap']
+    Z = sys.modules['hszinc.zoneinfo']
+    with contextlib.redirect_stdout(io.StringIO()):
+        try:
+            if first == 'read_zinc':
+                hz.parse('ver:"3.0"\nt\n2020-01-01T00:00:00+01:00 Paris\n', mode=hz.MODE_ZINC)
+            elif first == 'read_json':
+                hz.parse({'meta': {'ver': '3.0'}, 'cols': [{'name': 't'}], 'rows': [{'t': 't:2020-01-01T09:00:00+09:00 Tokyo'}]}, mode=hz.MODE_JSON)
+            elif first == 'timezone_call':
+                Z.timezone('Chicago')
+            elif first == 'write_one':
+                hz.dump_scalar(pytz.timezone('Europe/London').localize(datetime.datetime(2020, 6, 1, 12, 0)), mode=hz.MODE_ZINC)
+            else:
+                try:
+                    hz.parse_scalar('2020-01-01T00:00:00Z Nowhere_Land', mode=hz.MODE_ZINC)
+                except Exception:
+                    pass
+        except Exception as e:
+            return dict(n=0, fails=[dict(first=first, zone='-', what='the first operation raised %s: %s' % (type(e).__name__, str(e)[:80]))])
+    fails = []
+    n = 0
+    for name in sorted(zmap):
+        tz = pytz.timezone(zmap[name])
+        for naive in (datetime.datetime(2021, 7, 1, 12, 0, 0), datetime.datetime(2021, 1, 1, 0, 30, 0)):
+            n += 1
+            msg = roundtrip_problem(hz, tz.localize(naive), name)
+            if msg is not None:
+                fails.append(dict(first=first, zone=name, what='after %s as first zone operation: %s' % (first, msg)))
+                break
+    got = dict(Z.get_tz_map())
+    if {k: str(v) for k, v in got.items()} != zmap and not fails:
+        fails.append(dict(first=first, zone='-', what='after %s as first zone operation the zone map has %d entries instead of %d' % (first, len(got), len(zmap))))
+    return dict(n=n, fails=fails[:10])
+
+
+def replay_order(hz, first, zmap, zone):
+    r = run_order(hz, dict(first=first, zmap=zmap))
+    for f in r['fails']:
+        if f['zone'] == zone:
+            return f['what']
+    return None
+
+
 def replay_transition(hz, zone, utc_iso):
     import pytz
     Z = sys.modules['hszinc.zoneinfo']
@@ -221,9 +272,11 @@ if __name__ == '__main__':
             res = run_tables(hz)
         elif job['mode'] == 'transitions':
             res = run_transitions(hz, job)
+        elif job['mode'] == 'order':
+            res = run_order(hz, job)
         else:
             res = run_fixed(hz, job)
-        res.update(job={k: v for k, v in job.items() if k not in ('zones', 'offsets')}, status='done', wall_s=round(time.time() - t0, 2))
+        res.update(job={k: v for k, v in job.items() if k not in ('zones', 'offsets', 'zmap')}, status='done', wall_s=round(time.time() - t0, 2))
     except BaseException:
         res = dict(job=job, status='fault', error=traceback.format_exc()[-1500:])
     sys.stdout.write('\nC17-RESULT ' + json.dumps(res, default=str) + '\n')
